@@ -263,7 +263,9 @@ fn float(value: Value) -> Result<Value> {
 
 fn dec(value: Value) -> Result<Value> {
     match value.clone() {
-        Value::Int(val) => Ok(Value::Decimal(val.into())),
+        Value::Int(val) => Decimal::from_i128(val)
+            .map(Value::Decimal)
+            .ok_or_else(|| Error::invalid_cast(value, "Value::Decimal")),
         Value::Float(val) => Decimal::try_from(val)
             .map(Value::Decimal)
             .map_err(|_| Error::invalid_cast(value, "Value::Float")),
@@ -312,7 +314,10 @@ fn mult(left: Value, right: Value) -> Result<Value> {
             .map(Value::Int)
             .ok_or_else(|| Error::value_out_of_bounds(Value::Int(left), "mult")),
         (Value::Float(left), Value::Float(right)) => Ok(Value::Float(left * right)),
-        (Value::Decimal(left), Value::Decimal(right)) => Ok(Value::Decimal(left * right)),
+        (Value::Decimal(left), Value::Decimal(right)) => left
+            .checked_mul(right)
+            .map(Value::Decimal)
+            .ok_or_else(|| Error::value_out_of_bounds(Value::Decimal(left), "mult")),
 
         (Value::None, _) | (_, Value::None) => Ok(Value::None),
         _ => Err(Error::InvalidType),
@@ -358,7 +363,10 @@ fn add(left: Value, right: Value) -> Result<Value> {
             .map(Value::Int)
             .ok_or_else(|| Error::value_out_of_bounds(Value::Int(left), "add")),
         (Value::Float(left), Value::Float(right)) => Ok(Value::Float(left + right)),
-        (Value::Decimal(left), Value::Decimal(right)) => Ok(Value::Decimal(left + right)),
+        (Value::Decimal(left), Value::Decimal(right)) => left
+            .checked_add(right)
+            .map(Value::Decimal)
+            .ok_or_else(|| Error::value_out_of_bounds(Value::Decimal(left), "add")),
         (Value::DateTime(left), Value::Duration(right)) => left
             .checked_add_signed(right)
             .map(Value::DateTime)
@@ -376,7 +384,10 @@ fn sub(left: Value, right: Value) -> Result<Value> {
             .map(Value::Int)
             .ok_or_else(|| Error::value_out_of_bounds(Value::Int(left), "sub")),
         (Value::Float(left), Value::Float(right)) => Ok(Value::Float(left - right)),
-        (Value::Decimal(left), Value::Decimal(right)) => Ok(Value::Decimal(left - right)),
+        (Value::Decimal(left), Value::Decimal(right)) => left
+            .checked_sub(right)
+            .map(Value::Decimal)
+            .ok_or_else(|| Error::value_out_of_bounds(Value::Decimal(left), "sub")),
         (Value::DateTime(left), Value::DateTime(right)) => Ok(Value::Duration(left - right)),
         (Value::DateTime(left), Value::Duration(right)) => left
             .checked_sub_signed(right)
